@@ -1180,7 +1180,10 @@ func runC13(c *lib.Ctx) error {
 			for k := 0; k < 4*scale; k++ {
 				pfx := crossed[rng.Intn(len(crossed))]
 				if k == 0 {
-					pfx = crossed[rng.Intn(3)] // always one plain non-zero start time
+					pfx = crossed[rng.Intn(2)] // always one plain non-zero start time that is a multiple of 60 s
+				}
+				if k == 1 {
+					pfx = "start_1700000065/" // and one that is not (1700000065 = 25 mod 60)
 				}
 				n := 1 + rng.Intn(3)
 				urlPrefix = pfx
